@@ -919,15 +919,21 @@ class CallMixin:
         target, it, ifs = self._comp_parts(e)
         if not (isinstance(e.elt, ast.Name) and isinstance(target, ast.Name) and e.elt.id == target.id):
             raise Unsupported("set comprehension whose element is not the bound variable")
-        dom = self.ev(it, p)
-        ety = dom.ty.k if isinstance(dom.ty, T.Map) else T.INT if dom.ty == T.TUP else dom.ty.e
+        from .engine import UNIVERSES
+        universe = isinstance(it, ast.Name) and (it.id in UNIVERSES or it.id == "Key") and it.id not in p.env
+        if universe:
+            dom = None
+            ety = UNIVERSES.get(it.id) or self.key_type(p)
+        else:
+            dom = self.ev(it, p)
+            ety = dom.ty.k if isinstance(dom.ty, T.Map) else T.INT if dom.ty == T.TUP else dom.ty.e
         x = fresh("sc_" + target.id, ety.sort())
         xv = T.scalar(ety, x)
         saved = dict(p.env)
         p.env[target.id] = xv
         p.env["__bv_" + target.id] = xv
         try:
-            conds = [self.member(xv, dom, p)] + [self.truth(self.ev(c, p), p) for c in ifs]
+            conds = ([] if universe else [self.member(xv, dom, p)]) + [self.truth(self.ev(c, p), p) for c in ifs]
         finally:
             p.env.clear()
             p.env.update(saved)
